@@ -76,7 +76,7 @@ def gen_case(rng, run, tier, alphabet=None, fault_alphabet=None, want_html=False
     eol = rng.choice(['', '\n', '\r\n']) if d[0] != '\n' else ''
     cfg = docsim.draw_config(rng, 'x' * 300, allow_path=False)
     cfg['sinks'] = ['ack'] + (['html'] if want_html or rng.random() < 0.3 else []) + (['xml'] if rng.random() < 0.2 else [])
-    case.update({'doc': w['doc'], 'faults': [{k: f.get(k) for k in ('kind', 'line', 'ele', 'comp', 'code', 'seg_id')} for f in w['applied']],
+    case.update({'doc': w['doc'], 'faults': [{k: f.get(k) for k in ('kind', 'line', 'ele', 'comp', 'code', 'seg_id', 'op')} for f in w['applied']],
                  'tfaults': w['tfaults'], 'shape': w['shape'], 'delims': d, 'eol': eol, 'cfg': cfg})
     return case
 
@@ -248,7 +248,7 @@ def check(case, r, out):
     # (3c) the converse over the ground truth of the workload: when every defect of the document is a known, position-neutral
     # fault, an itemised segment line names a faulted segment of its set (or its trailer) - no innocent segment is blamed
     structural = [k for _, k in case.get('tfaults', []) if k in ('junk_gap', 'drop_se', 'drop_ge')]
-    if not structural and all(f.get('line') is not None for f in case.get('faults', [])):
+    if not structural and all(f.get('line') is not None and f.get('op') != 'delete' for f in case.get('faults', [])):
         faulted = {}
         for f in case.get('faults', []):
             set_ord, pos = 0, 0
